@@ -102,6 +102,8 @@ theorem evalG_render (env : String → Val) (d : Dialect) :
   | .inlist _ _ _, hc => by simp [Core] at hc
   | .inrows _ _ _, hc => by simp [Core] at hc
   | .tuple_ _, hc => by simp [Core] at hc
+  | .litcol _ _, hc => by simp [Core] at hc
+  | .ilikeOperand _, hc => by simp [Core] at hc
   | .absent, hc => by simp [Core] at hc
 
 theorem evalG_renderList (env : String → Val) (d : Dialect) :
@@ -246,6 +248,8 @@ theorem flattened_eval (env : String → Val) (op : Op) : ∀ l : SaExpr, operat
   | .inlist _ _ _, _, hc => by simp [Core] at hc
   | .inrows _ _ _, _, hc => by simp [Core] at hc
   | .tuple_ _, _, hc => by simp [Core] at hc
+  | .litcol _ _, _, hc => by simp [Core] at hc
+  | .ilikeOperand _, _, hc => by simp [Core] at hc
   | .absent, _, hc => by simp [Core] at hc
 
 theorem evalCoreList_ne_nil (env : String → Val) : ∀ cs : List SaExpr, cs ≠ [] → evalCoreList env cs ≠ []
@@ -403,6 +407,8 @@ theorem negate_eval (env : String → Val) (e : SaExpr) (h : BoolE e) (hs : negS
   | inlist _ _ _ => simp [boolShape] at hsh
   | inrows _ _ _ => simp [boolShape] at hsh
   | tuple_ _ => simp [boolShape] at hsh
+  | litcol _ _ => simp [boolShape] at hsh
+  | ilikeOperand _ => simp [boolShape] at hsh
   | absent => simp [boolShape] at hsh
 
 end SaVerif.Expr
@@ -616,6 +622,7 @@ theorem build_num_eval (env : String → Val) : ∀ (u : U) (e : SaExpr), NumU u
   | .subq _ _, _, hu, _ => by simp [NumU] at hu
   | .inOp _ _ _, _, hu, _ => by simp [NumU] at hu
   | .tupleIn _ _ _, _, hu, _ => by simp [NumU] at hu
+  | .strop _ _ _ _, _, hu, _ => by simp [NumU] at hu
   | .absent, _, hu, _ => by simp [NumU] at hu
 
 mutual
@@ -824,6 +831,7 @@ theorem build_bool_eval (env : String → Val) : ∀ (u : U) (e : SaExpr), BoolU
   | .subq _ _, _, hu, _, _ => by simp [BoolU] at hu
   | .inOp _ _ _, _, hu, _, _ => by simp [BoolU] at hu
   | .tupleIn _ _ _, _, hu, _, _ => by simp [BoolU] at hu
+  | .strop _ _ _ _, _, hu, _, _ => by simp [BoolU] at hu
   | .absent, _, hu, _, _ => by simp [BoolU] at hu
 
 theorem build_boolList_eval (env : String → Val) : ∀ (us : List U) (es : List SaExpr),
